@@ -100,7 +100,10 @@ def main():
         if os.path.exists(os.path.join(src, f)):
             shutil.copy(os.path.join(src, f), os.path.join(dst, f))
     # our check against it
-    chk = run_check_on(dst, check_id, tier)
+    if "--no-check" in sys.argv:
+        chk = dict(cmd="(check not run yet)", exit=None, detected=False, violation_keys=[])
+    else:
+        chk = run_check_on(dst, check_id, tier)
     crc, keys = chk["exit"], chk["violation_keys"]
     notes = ""
     try:
